@@ -20,13 +20,13 @@ def run(ctx):
     thorough = ctx.tier == 'thorough'
     exe = lc.build(ctx)
     if not lc.SKIP_E1:   # (mutation runs of the dispenso code skip the code-independent model checking)
-        ctx.check_model(lc.SPEC, 'MCParForApi.tla', 'MC_api_plan_thorough.cfg' if thorough else 'MC_api_plan.cfg', WHAT,
-                        label='plan level: tasks + caller <= maxThreads, every option combination', workers=4, timeout=1500,
+        lc.check_model(ctx, 'MCParForApi.tla', 'MC_api_plan_thorough.cfg' if thorough else 'MC_api_plan.cfg', WHAT,
+                        label='plan level: tasks + caller <= maxThreads, every option combination',
                         vacuity_exempt=('Next',))
-        ctx.check_model(lc.SPEC, 'MCParForApi.tla', 'MC_api_inter_thorough.cfg' if thorough else 'MC_api_inter.cfg', WHAT,
-                        label='parallel_for: all interleavings', workers=4, timeout=1500)
-        ctx.check_model(lc.SPEC, 'MCForEach.tla', 'MC_fe_inter_thorough.cfg' if thorough else 'MC_fe_c48.cfg', WHAT,
-                        label='for_each_n: all interleavings', workers=4, timeout=1500)
+        lc.check_model(ctx, 'MCParForApi.tla', 'MC_api_inter_thorough.cfg' if thorough else 'MC_api_inter.cfg', WHAT,
+                        label='parallel_for: all interleavings')
+        lc.check_model(ctx, 'MCForEach.tla', 'MC_fe_inter_thorough.cfg' if thorough else 'MC_fe_c48.cfg', WHAT,
+                        label='for_each_n: all interleavings')
         lc.negative_control(ctx, 'MCParForApi.tla', 'MC_api_neg_tail_c48.cfg',
                             'original static no-wait tail: maxThreads chunks + the tail on the caller', 'ConcurrencyBound')
         lc.negative_control(ctx, 'MCParForApi.tla', 'MC_api_neg_clamp_c48.cfg',
